@@ -4,10 +4,12 @@ import (
 	"context"
 	"encoding/hex"
 	"fmt"
+	"io"
 	"net"
 	"reflect"
 	"strings"
 	"sync/atomic"
+	"time"
 
 	"github.com/ovh/kmip-go"
 	"github.com/ovh/kmip-go/kmipclient"
@@ -174,7 +176,7 @@ func newC12WireClient(first *respSpec) (*c12client, error) {
 	return cc, nil
 }
 
-func newC12Client(negotiate bool, first *respSpec) (*c12client, error) {
+func newC12Client(negotiate bool, first *respSpec, libmw ...bool) (*c12client, error) {
 	cc := &c12client{}
 	cc.current.Store(first)
 	stub := func(next kmipclient.Next, ctx context.Context, req *kmip.RequestMessage) (*kmip.ResponseMessage, error) {
@@ -191,7 +193,17 @@ func newC12Client(negotiate bool, first *respSpec) (*c12client, error) {
 		return resp, nil
 	}
 	dialer := func(ctx context.Context) (net.Conn, error) { a, _ := net.Pipe(); return a, nil }
-	opts := []kmipclient.Option{kmipclient.WithDialerUnsafe(dialer), kmipclient.WithMiddlewares(stub)}
+	opts := []kmipclient.Option{kmipclient.WithDialerUnsafe(dialer)}
+	if len(libmw) > 0 && libmw[0] {
+		// the library's own middlewares in front of the stub: they see the raw response before the client validates it
+		n := 0
+		opts = append(opts, kmipclient.WithMiddlewares(
+			kmipclient.CorrelationValueMiddleware(func() string { n++; return fmt.Sprint("corr-", n) }),
+			kmipclient.TimeoutMiddleware(time.Minute),
+			kmipclient.DebugMiddleware(io.Discard, nil),
+			kmipclient.DebugMiddleware(io.Discard, ttlv.MarshalJSON)))
+	}
+	opts = append(opts, kmipclient.WithMiddlewares(stub))
 	if !negotiate {
 		opts = append(opts, kmipclient.EnforceVersion(kmip.V1_4))
 	}
@@ -350,7 +362,7 @@ func runC12(c *vlib.Check) {
 	c.Rule = fmt.Sprintf("every fluent call (%d executors of the 27 operations, Request, Batch+Unwrap, BatchExec with and without each batch error continuation option, a three-operation Then chain, the Signer flow, and the dial-time version discovery) x every crafted response of the product "+
 		"header batch count {0,1,2} x items {0,1,2} x item operation {same, another implemented, unregistered, absent} x status {Success, Failed, Pending, Undone, 7} x reason {absent, 3 named, unnamed} x "+
 		"payload {absent, right type, another operation's type, opaque} x message {empty, text} (%d responses per call). Responses are produced by the independent generator and decoded by the library before being handed to the client "+
-		"through a stub installed as innermost middleware; for every 5th call the same responses also travel over an in-memory connection through the client's own receive path, many per connection. distinct = distinct (call, response) pairs", len(calls)-7, len(specs))
+		"through a stub installed as innermost middleware; for every 5th call the same responses also travel over an in-memory connection through the client's own receive path, many per connection, and for every 5th call through a client configured with the library's own middlewares (correlation value, timeout, debug in XML and JSON). distinct = distinct (call, response) pairs", len(calls)-7, len(specs))
 	c.Assumptions = []string{"'carries status, reason and message': the error text contains the registered name (or the number, for unregistered values) of the status and of the reason when present, and the message text",
 		"the carrying clause is only judged when counts match (header count = items = requested items)"}
 	// per-item call: every pair of item specs (reduced alphabet), so that a violating item can follow a failed one
@@ -417,6 +429,30 @@ func runC12(c *vlib.Check) {
 		}
 	})
 	c.Extra["responses_over_a_real_connection"] = len(wpairs)
+	// ... and through a client configured with the library's own middlewares (correlation value, timeout, debug in XML and
+	// JSON), which handle the response before the client has validated it
+	var mpairs []pair
+	for _, p := range pairs {
+		if p.ci%5 == 1 || calls[p.ci].perItem {
+			mpairs = append(mpairs, p)
+		}
+	}
+	vlib.Parallel((len(mpairs)+block-1)/block, 0, func(b int) {
+		cc, err := newC12Client(false, &specs[0], true)
+		if err != nil {
+			c.Violation("machinery:dial", err.Error(), nil)
+			return
+		}
+		defer cc.cl.Close()
+		for i := b * block; i < (b+1)*block && i < len(mpairs); i++ {
+			call, spec := calls[mpairs[i].ci], specs[mpairs[i].si]
+			cc.current.Store(&spec)
+			mcall := call
+			mcall.name = "[library middlewares] " + call.name
+			c12Judge(c, mcall, spec, func() ([]kmip.OperationPayload, error) { return call.run(cc.cl) }, false)
+		}
+	})
+	c.Extra["responses_through_library_middlewares"] = len(mpairs)
 	// dial-time discovery
 	for si := range specs[:mixedStart] {
 		spec := specs[si]
@@ -428,6 +464,13 @@ func runC12(c *vlib.Check) {
 		if pv, site := vlib.Catch(func() { cl, err = newC12Client(true, &spec) }); pv != nil {
 			c.Violation("panic:Dial:"+site+":"+short(classify(fmt.Sprint(pv)), 24), fmt.Sprintf("%s: panic %v", label, pv), rep)
 			continue
+		}
+		if pv, site := vlib.Catch(func() {
+			if cm, merr := newC12Client(true, &spec, true); merr == nil {
+				cm.cl.Close()
+			}
+		}); pv != nil {
+			c.Violation("panic:Dial:"+site+":"+short(classify(fmt.Sprint(pv)), 24), fmt.Sprintf("[library middlewares] %s: panic %v", label, pv), rep)
 		}
 		if err == nil {
 			// accepted: only a well-formed successful DiscoverVersions answer may be accepted
